@@ -56,6 +56,9 @@ def build(c):
     if late == "after_power":
         atoms.set_masses([fl(m) for m in c["masses"]])
         sim.update_masses()
+    if late == "foreign":
+        # the masses that scale the displacements are a setting of their own (effective masses): the atoms keep their chemical masses
+        sim.update_masses(np.array([fl(m) for m in c["masses"]], dtype=float))
     assert len(atoms) == n
     return atoms, sim
 
@@ -77,9 +80,15 @@ def handler(c):
     out = {"zeta": [], "dx": [], "gamma": None, "steps": 0}
     keep = c.get("keep", True)
     zs = []
-    for _ in range(c["steps"]):
+    swap = c.get("swap")
+    out["gamma_steps"] = []
+    for si in range(c["steps"]):
+        if swap and si == swap["after"] + 1:
+            atoms.calc = Prescribed(arr(swap["forces"]))      # the user exchanges the calculator between two steps (an outside change)
         before = atoms.positions.copy()
         sim.step()
+        if keep:
+            out["gamma_steps"].append([float(g).hex() for g in np.ravel(np.broadcast_to(np.asarray(sim.gamma, dtype=float), (len(atoms), 3)))])
         d = atoms.positions - before
         out["steps"] += 1
         if keep:
